@@ -2450,6 +2450,32 @@ def i_trimsuffix(e, st, a, i):
     return sym_ite_str(has, cut, s)
 
 
+def _field(e, st, ptr, fname):
+    """value of field `fname` of the struct a (single-target) pointer points to"""
+    (g, obj, path), = ptr.alts
+    t = e.objtype.get(obj)
+    v = e.get_path(st.heap[obj], path)
+    for p_ in path:
+        _, d = e.under(t)
+        t = d['fields'][p_]['type'] if isinstance(p_, int) and 'fields' in d else d.get('elem')
+    _, d = e.under(t)
+    for k, f in enumerate(d['fields']):
+        if f['name'] == fname:
+            return v[k]
+    raise Unsupported('no field ' + fname)
+
+
+def i_atomix_map_by_name(e, st, a, i):
+    """(*mapBuilder[K,V]).Get: the primitive is identified by its NAME alone (PrimitiveID{Name: b.options.Name} in the SDK):
+    the harness function VerifNamedMap(name) of the calling package returns the stub primitive bound to that name"""
+    name = _field(e, st, _field(e, st, a[0], 'options'), 'Name')
+    target = [f for f in e.funcs if f.endswith('.VerifNamedMap')]
+    if len(target) != 1:
+        raise Unsupported('atomix-map-by-name needs exactly one VerifNamedMap harness function')
+    m = e.call(st, target[0], [name], {'type': e.T(e.funcs[target[0]]['results'])['elems'][0]})
+    return (m, e.zero(e.T(i['type'])['elems'][1]))
+
+
 # named cuts: a harness may replace a real callee by one of these models (engine.cuts = {callee: cutname});
 # every cut is listed in the evidence as an assumption
 CUTS = {
@@ -2457,6 +2483,7 @@ CUTS = {
     'identity-arg0': lambda e, st, a, i: a[0],
     'new-of-result': i_new_of_result,
     'noop': lambda e, st, a, i: e.opaque_result(i),
+    'atomix-map-by-name': i_atomix_map_by_name,
 }
 
 FORCE_STUB = {
